@@ -1074,7 +1074,9 @@ def c19(prop, tier, seed):
     clean = [r for r in rows if not r["hist"][0]["view"]["errmust"] and not r["hist"][0]["view"]["errmay"] and all(r["fs0"][d]["st"] == "dir" for d in r["dirs"])]
     faulty = [r for r in rows if r["hist"][0]["view"]["errmust"]]
     n = 120 if tier == "quick" else 2500
-    sel = clean[:n] + faulty[:n // 4]
+    # always some lists in which a directory comes back after another one (its later position counts)
+    again = [r for r in clean if len(r["dirs"]) == 3 and r["hist"][0]["view"]["devs"]][:30]
+    sel = again + [r for r in clean if r not in again][:n - len(again)] + faulty[:n // 4]
     f1, f2, f3 = scratch_file("cli-rows.ndjson"), scratch_file("cli-tokens.ndjson"), scratch_file("cli-docs.ndjson")
     write_rows(sel, f1)
     write_rows(rs[1].rows, f2)
